@@ -19,6 +19,11 @@ class SubmitError(Exception):
     """raised by the submission function itself (`func` of fifo_stream / async_fifo_stream) for one element"""
 
 
+def unpp(x):
+    """harness preprocessors TRANSFORM the element (the documented "extract part of the element" use): x -> ('pp', x)"""
+    return x[1] if isinstance(x, tuple) and len(x) == 2 and x[0] == 'pp' else x
+
+
 def fid(fut):
     i = getattr(fut, '_vi', None)
     if i is None:
@@ -40,7 +45,9 @@ def classify(item):
         if item == _streamer.STOPPED:
             return {'t': 'stopped', 'x': 0, 'f': 0}
     if isinstance(item, tuple) and len(item) == 2 and isinstance(item[1], concurrent.futures.Future):
-        return {'t': 'item', 'x': item[0], 'f': fid(item[1])}
+        # (an element that is not the original int - e.g. the preprocessor's output queued in its place - becomes -1: the
+        # model never has it, and TLC would not compare an int with a tuple)
+        return {'t': 'item', 'x': item[0] if isinstance(item[0], int) else -1, 'f': fid(item[1])}
     if isinstance(item, int):
         return {'t': 'item', 'x': item, 'f': 0}
     return {'t': 'other', 'x': 0, 'f': 0}
@@ -128,14 +135,14 @@ def install_future_wrappers():
     orig_submit = mcf.ThreadPoolExecutor.submit
 
     def submit(self, fn, /, *args, **kwargs):
-        tagged = bool(args) and isinstance(args[0], int) and detsched.current() is not None \
+        tagged = bool(args) and isinstance(unpp(args[0]), int) and detsched.current() is not None \
             and getattr(fn, '_verif_work', False)
         if tagged:
             # logged BEFORE the real submission: a pool worker may enter the function before submit() returns
-            detsched.emit('Submit', i=args[0])
+            detsched.emit('Submit', i=unpp(args[0]))
         fut = orig_submit(self, fn, *args, **kwargs)
         if tagged:
-            fut._vi = args[0]
+            fut._vi = unpp(args[0])
         return fut
 
     mcf.ThreadPoolExecutor.submit = submit
